@@ -9,8 +9,10 @@ CONSTANTS
   LVs = {"l1"}
   Variant = "as_found"
   Broken = "expire_keeps_gauge"
+  MapWindow = TRUE
   MaxPrints = 0
   MaxFree = 0
 VIEW view
+CONSTRAINT Canon
 INVARIANTS ActiveExact
 CHECK_DEADLOCK FALSE
